@@ -130,6 +130,15 @@ func execC34B(t *testing.T, sc *c34Scenario, keepLog bool) *Outcome {
 							c.WriteRecord(22, []byte{24, 0, 0, 1, 1})
 							c.NetConn().Close()
 						}
+					case "ccs_flood":
+						if c.ConnectionState().HandshakeComplete {
+							raw := []byte{20, 3, 3, 0, 1, 1}
+							var b []byte
+							for k := 0; k < 17+op.DelayMs%5; k++ {
+								b = append(b, raw...)
+							}
+							c.NetConn().Write(b)
+						}
 					case "key_update_raw":
 						if c.ConnectionState().HandshakeComplete {
 							c.WriteRecord(22, []byte{24, 0, 0, 1, 1})
